@@ -67,15 +67,37 @@ impl Engine {
     }
 }
 
-fn collect<I: Iterator<Item = regress::Match>>(it: I) -> MatchList {
-    it.map(|m| {
-        (
+/// Sentinel offset of the pseudo-match recorded when an exhausted iterator yields again (C09: fused).
+pub const UNFUSED: usize = 999_999_999;
+
+struct RestoreSteps(u64, u64);
+impl Drop for RestoreSteps {
+    fn drop(&mut self) {
+        verif::STEPS.store(self.0, std::sync::atomic::Ordering::Relaxed);
+        verif::BUDGET.store(self.1, std::sync::atomic::Ordering::Relaxed);
+    }
+}
+
+fn collect<I: Iterator<Item = regress::Match>>(mut it: I) -> MatchList {
+    let mut v: MatchList = Vec::new();
+    while let Some(m) = it.next() {
+        v.push((
             m.range.start,
             m.range.end,
             m.captures.iter().map(|c| c.as_ref().map(|r| (r.start, r.end))).collect(),
-        )
-    })
-    .collect()
+        ));
+    }
+    // once the iterator has returned None it must keep returning None: poll it again
+    // (the polls repeat the failed search; their steps are not part of the compared step count)
+    let _restore = RestoreSteps(verif::steps(), verif::BUDGET.load(std::sync::atomic::Ordering::Relaxed));
+    verif::BUDGET.store(u64::MAX, std::sync::atomic::Ordering::Relaxed);
+    for _ in 0..2 {
+        if it.next().is_some() {
+            v.push((UNFUSED, UNFUSED, Vec::new()));
+            break;
+        }
+    }
+    v
 }
 
 /// Run one engine over the whole match sequence; returns (status, steps, matches).
